@@ -269,6 +269,10 @@ def check(ctx, rep):
                     rep.ob("R-REFS-FUTURE", "%s registers its callback on the inputs through the call-once wrapper" % cn, wrapped, "the input future gets %s directly: a plain concurrent.futures.Future never forgets its callbacks, so an input that outlives the operation keeps the operation, its output future and every collected result alive" % fmt(cb), where_of(e.fn, e.node), trace_of(p, e.seq))
     rep.count("callback registrations of combinators on their inputs", nreg, 2)
 
+    # the set of futures tracked for the shutdown sweep: a future that is already done when it is registered must not
+    # stay in it (shared with C10)
+    from .c10 import discard_order_rule
+    discard_order_rule(ctx, rep, "R-REFS-JOBS")
     # a poll entry is removed by the future's own done-callback, so it must not be possible for the future to
     # finish before the entry exists (shared with C08)
     from .c08 import register_order_rule
